@@ -61,6 +61,23 @@ func init() {
 		a, err := ton.ParseAccountID(string(in.Bytes))
 		return c17AccOut(a, err)
 	}
+	// the other entry points that must agree with ParseAccountID (MustParse: panic = error)
+	must := func(f func(string) ton.AccountID) Exec {
+		return func(in sx.V) (out sx.V) {
+			defer func() {
+				if r := recover(); r != nil {
+					out = sx.A("err")
+				}
+			}()
+			return c17AccSx(f(string(in.Bytes)))
+		}
+	}
+	execs["c17.mustparse"] = must(ton.MustParseAccountID)
+	execs["c17.rootmust"] = must(tongo.MustParseAccountID)
+	execs["c17.rootparse"] = func(in sx.V) sx.V {
+		a, err := tongo.ParseAccountID(string(in.Bytes))
+		return c17AccOut(a, err)
+	}
 	execs["c17.tl"] = func(in sx.V) sx.V {
 		b, err := c17Acc(in.List[0], in.List[1]).MarshalTL()
 		return errOr(err, sx.Bytes(b))
@@ -724,6 +741,57 @@ func c17MaJsonVariants(c *Ctx, a ton.AccountID) {
 		emit(q(wc+":"+hx+":"+an), "anycast")
 		if r.Chance(30) {
 			emit(q("300:"+hx[:10]+":"+an), "anycast-var")
+		}
+	}
+}
+
+// every entry point that parses an account id from text
+var c17TextParsers = []string{"c17.parseraw", "c17.parseacc", "c17.mustparse", "c17.rootparse", "c17.rootmust", "c17.parseaddr"}
+
+// The raw form admits every hex length 0..64 (short hex is zero filled) after every workchain
+// spelling, so its total length takes every value from 2 up to 76 and collides with the fixed
+// lengths of the other forms (48 user-friendly, 55 ADNL, 64 bare hex, 66 ...).  All lengths x
+// all spellings go through all entry points (+ the two JSON forms); the answer never depends on
+// the total length: the account is the zero-filled one, and the entry points agree.
+func c17RawLengths(c *Ctx, addr [32]byte) {
+	hx := hex.EncodeToString(addr[:])
+	for _, w := range []string{"0", "-1", "12", "-128", "127", "100000", "-2147483648", "2147483647", "+1", "007", "-0", "2147483648", "x"} {
+		for k := 0; k <= 66; k++ {
+			h := hx
+			if k <= 64 {
+				h = hx[64-k:]
+			} else {
+				h = strings.Repeat("0", k-64) + hx
+			}
+			t := w + ":" + h
+			in := sx.Str(t)
+			cls := "rawlen,other"
+			switch {
+			case len(t) == 48 || len(t) == 55 || len(t) == 64 || len(t) == 66:
+				cls = fmt.Sprintf("rawlen,total%d", len(t)) // lengths of the other textual forms
+			case k == 0 || k == 64 || k > 64:
+				cls = fmt.Sprintf("rawlen,hex%d", k)
+			}
+			// reference: decimal int32 workchain, hex digits right-aligned in the 64-digit address
+			want := "'err"
+			var wcv int64
+			if _, err := fmt.Sscanf(w+"\n", "%d\n", &wcv); err == nil && wcv >= -1<<31 && wcv < 1<<31 && k <= 64 {
+				var a ton.AccountID
+				a.Workchain = int32(wcv)
+				b, _ := hex.DecodeString(strings.Repeat("0", 64-k) + h) // right-aligned nibbles
+				copy(a.Address[:], b)
+				want = c17AccSx(a).String()
+			}
+			for _, kind := range c17TextParsers {
+				if got := c.Emit(kind, in, cls).String(); got != want {
+					c.Fail(kind, in, "raw-zero-fill", fmt.Sprintf("raw text of total length %d: want %s got %s", len(t), want, got))
+				}
+			}
+			q := sx.Str(`"` + t + `"`)
+			if got := c.Emit("c17.unjson", q, cls).String(); got != want {
+				c.Fail("c17.unjson", q, "raw-zero-fill", fmt.Sprintf("JSON string with raw text of total length %d: want %s got %s", len(t), want, got))
+			}
+			c.Emit("c17.maunjson", q, cls)
 		}
 	}
 }
@@ -1413,6 +1481,9 @@ func genC17(c *Ctx) {
 		}
 		if i%4 == 0 {
 			c17RawVariants(c, a)
+		}
+		if i < c.Scale(2, 12) {
+			c17RawLengths(c, addr)
 		}
 		if i%4 == 1 && a.Workchain >= -128 && a.Workchain <= 127 {
 			c17HumanMalformed(c, a)
